@@ -5,6 +5,7 @@ import (
 	"os"
 	"path/filepath"
 	"strings"
+	"unicode/utf8"
 
 	"github.com/Vedant9500/WTF/internal/config"
 	"github.com/Vedant9500/WTF/internal/database"
@@ -117,7 +118,7 @@ func saveToPersonalDatabase(dbPath string, entry database.Command) error {
 }
 
 func writePersonalDatabase(dbPath string, commands []database.Command) error {
-	data, err := yaml.Marshal(commands)
+	data, err := yaml.Marshal(toNotebookEntries(commands))
 	if err != nil {
 		return fmt.Errorf("failed to marshal commands: %w", err)
 	}
@@ -128,4 +129,55 @@ func writePersonalDatabase(dbPath string, commands []database.Command) error {
 	}
 
 	return nil
+}
+
+// notebookString is a string that is always written in a form the YAML decoder reads
+// back unchanged: the encoder's block style loses or corrupts some multi-line strings
+// (leading blank lines or indentation), so those are written double-quoted instead.
+type notebookString string
+
+// MarshalYAML implements yaml.Marshaler.
+func (s notebookString) MarshalYAML() (interface{}, error) {
+	str := string(s)
+	if utf8.ValidString(str) && strings.Contains(str, "\n") {
+		return &yaml.Node{Kind: yaml.ScalarNode, Tag: "!!str", Value: str, Style: yaml.DoubleQuotedStyle}, nil
+	}
+	return str, nil
+}
+
+// notebookEntry mirrors database.Command for writing the personal notebook.
+type notebookEntry struct {
+	Command     notebookString   `yaml:"command"`
+	Description notebookString   `yaml:"description"`
+	Keywords    []notebookString `yaml:"keywords"`
+	Tags        []notebookString `yaml:"tags,omitempty"`
+	Niche       notebookString   `yaml:"niche,omitempty"`
+	Platform    []notebookString `yaml:"platform,omitempty"`
+	Pipeline    bool             `yaml:"pipeline"`
+}
+
+func toNotebookEntries(commands []database.Command) []notebookEntry {
+	conv := func(in []string) []notebookString {
+		if in == nil {
+			return nil
+		}
+		out := make([]notebookString, len(in))
+		for i, v := range in {
+			out[i] = notebookString(v)
+		}
+		return out
+	}
+	entries := make([]notebookEntry, len(commands))
+	for i, c := range commands {
+		entries[i] = notebookEntry{
+			Command:     notebookString(c.Command),
+			Description: notebookString(c.Description),
+			Keywords:    conv(c.Keywords),
+			Tags:        conv(c.Tags),
+			Niche:       notebookString(c.Niche),
+			Platform:    conv(c.Platform),
+			Pipeline:    c.Pipeline,
+		}
+	}
+	return entries
 }
